@@ -356,7 +356,7 @@ func stringsBody(maxLen int, deep bool, alpha ...string) nd.Body {
 // buffer boundaries used by transform.String and around 4096 (transform.Reader).
 var plants = []string{" ", `\`, "@", `\20`, `\5c`, `\5C`, `\2F`, `\2f`, `\3e`, `\40`, `\2`, `\20\20`, ` \`, `\\20`, `\2g`, `/`, `"&'`}
 var offsets = []int{0, 1, 2, 3, 4, 5, 6, 125, 126, 127, 128, 129, 130, 131, 253, 254, 255, 256, 257, 258, 259, 4093, 4094, 4095, 4096, 4097}
-var fills = []string{"a", "c"}
+var fills = []string{"a", "c", "@", `\`, " "} // fillers that are themselves escapable (dense input: the output is three times as long) or backslashes
 
 func plantedBody(c *nd.Ctx) nd.Result {
 	p := plants[c.Choose(len(plants), "plant")]
